@@ -26,8 +26,8 @@ func run(e *harness.Env) {
 	e.Rule = "seq: EVERY valid operator program (ISO 32000-1 Figure 9 nesting: q/Q/cm/Do only outside text objects, balanced q/Q, no nested BT) of <= L positioning operators " +
 		"(L=5 quick, 6 thorough) over an alphabet of 15 page-level and 24 text-level operator instances (7 cm and 7 Tm matrices: translate, uniform scale, non-uniform scale, rot 90, rot 30, shear, reflection; " +
 		"3 Td, 2 TD, T*, 2 TL, 2 Tf, Tc, Tw, Tz, Tj, ', \", one Form XObject Do), closed by a show; " +
-		"long: a length-40 skeleton with q/Q nesting depth 8 and a Form XObject invoked at depth 8, all programs within <= 2 (quick) / 3 (thorough) operator substitutions; " +
-		"form: product of <=2 (quick) / <=3 (thorough) outer cm x /Matrix (8) x direct/indirect x 4 form bodies (incl. nested form, unbalanced cm/TL inside the form) x follow-up; " +
+		"long: a length-40 skeleton with q/Q nesting depth 8 and a Form XObject (standard or operator-less body) invoked at depth 8, all programs within <= 2 (quick) / 3 (thorough) operator substitutions; " +
+		"form: product of <=2 (quick) / <=3 (thorough) outer cm x /Matrix (8) x direct/indirect x 9 form bodies (text, nested form, cm/TL/Tf inside the form without q, operator-less: zero bytes / white space / comment, state-only, operator-less nested form) x 5 invocation contexts (bare, q Do Q, q cm Do Q, two q levels with text between the Qs, 12 invocations in a row) x follow-up page-level text; " +
 		"gfx: every q/Q/cm program of <= 4 (quick) / 6 (thorough) operators with a stroked segment after each step through graphicsstate.NewGraphicsExtractor. " +
 		"One evaluation = one program; distinct = distinct program descriptors; non-trivial = the program is sensitive to the multiplication order, or makes a q/Q/Do restore observable, or has >= 2 compared shows. " +
 		"seq cases are sharded and (when failing) recorded per group = common prefix of 3 operators: one failure record per group x signature x feature class, remaining failing programs are counted in programs_failing"
@@ -100,7 +100,7 @@ func (p *program) dump() map[string][]byte {
 			}
 			hdr += "]"
 		}
-		files["form-"+f.name+".txt"] = append([]byte(hdr+"\n"), streamBytes(f.ops)...)
+		files["form-"+f.name+".txt"] = append([]byte(hdr+"\n"), f.content()...)
 	}
 	return files
 }
@@ -241,7 +241,7 @@ func oneLine(p *program) string {
 			}
 			s += "]"
 		}
-		s += ": " + strings.ReplaceAll(strings.TrimSpace(string(streamBytes(f.ops))), "\n", " ")
+		s += fmt.Sprintf(": %q", strings.TrimSpace(string(f.content())))
 	}
 	return s
 }
@@ -509,6 +509,13 @@ func longSpace(e *harness.Env) {
 			c.Tag("fm", "none")
 			p.addForm(stdForm(namedMat{}, false))
 		}
+		// body of the form invoked at depth 8: the standard one, or an operator-less one
+		switch c.PickS("fbody", "std", "empty", "comment") {
+		case "empty":
+			p.fseq[0].ops, p.fseq[0].rawSet, p.fseq[0].raw = nil, true, []byte{}
+		case "comment":
+			p.fseq[0].ops, p.fseq[0].rawSet, p.fseq[0].raw = nil, true, []byte("% nothing to paint\n")
+		}
 		c.Tag("tmrot", yn(p.hasRotatedTm()))
 		if !c.Counted() {
 			return
@@ -548,7 +555,15 @@ func formSpace(e *harness.Env) {
 		}
 	}
 	fmats := append([]namedMat{{name: "none"}}, cmMats...)
-	bodies := []string{"td", "inner-q-cm-tm", "nested", "leak"}
+	// form bodies: with text, nested, changing CTM/leading/font without q, and operator-less ones (zero
+	// bytes, white space, comment), a state-only one and an operator-less nested form. Bodies that end inside
+	// a text object or with an unmatched q are NOT generated: ISO 32000-1 8.4.2 / 9.4.1 require q/Q and BT/ET
+	// to be balanced within a content stream, so the property says nothing about them
+	bodies := []string{"td", "inner-q-cm-tm", "nested", "leak", "empty", "ws", "comment", "stateonly", "nested-empty"}
+	showless := map[string]bool{"empty": true, "ws": true, "comment": true, "stateonly": true}
+	// invocation contexts: bare Do; q Do Q; q cm Do Q; two q levels with text between the Qs;
+	// twelve invocations in a row followed by a form that shows text (nesting bookkeeping)
+	wraps := []string{"bare", "q", "qcm", "qq", "seq12"}
 	posts := []string{"td", "tstar"}
 	for _, outer := range outers {
 		for _, fm := range fmats {
@@ -558,13 +573,16 @@ func formSpace(e *harness.Env) {
 						continue
 					}
 					for _, body := range bodies {
-						for _, wrap := range []string{"bare", "q"} {
+						for _, wrap := range wraps {
+							if wrap == "seq12" && !showless[body] {
+								continue // identical fragments of repeated invocations would be de-duplicated
+							}
 							for _, post := range posts {
 								desc := harness.D("space", "form", "outer", codes(outer), "matrix", fm.name, "xobj", xref, "mref", mref, "body", body, "wrap", wrap, "post", post)
 								if !e.Own(desc) {
 									continue
 								}
-								p := buildFormProgram(outer, fm, xref == "indirect", mref == "indirect", body, wrap == "q", post)
+								p := buildFormProgram(outer, fm, xref == "indirect", mref == "indirect", body, wrap, post)
 								e.Begin(desc)
 								v := judge(p)
 								if v.sig != "" {
@@ -582,7 +600,7 @@ func formSpace(e *harness.Env) {
 	}
 }
 
-func buildFormProgram(outer []op, fm namedMat, xind, mind bool, body string, wrap bool, post string) *program {
+func buildFormProgram(outer []op, fm namedMat, xind, mind bool, body string, wrap string, post string) *program {
 	p := &program{shareFonts: true}
 	f := &form{name: "Fm0", indirect: xind, matrixIndr: mind}
 	if fm.name != "none" {
@@ -603,14 +621,43 @@ func buildFormProgram(outer []op, fm namedMat, xind, mind bool, body string, wra
 		defer p.addForm(g)
 	case "leak":
 		f.ops = []op{matOp("cm", namedMat{"in", [6]string{"3", "0", "0", "3", "0", "0"}}), numOp("TL", "f", "9"), opsTf[1], opBT, opTj, opET}
+	case "empty":
+		f.rawSet, f.raw = true, []byte{}
+	case "ws":
+		f.rawSet, f.raw = true, []byte(" \r\n\t\n")
+	case "comment":
+		f.rawSet, f.raw = true, []byte("% placeholder appearance, draws nothing\n")
+	case "stateonly":
+		f.ops = []op{matOp("cm", namedMat{"in", [6]string{"3", "0", "0", "3", "0", "0"}}), numOp("TL", "f", "9"), opsTf[1]}
+	case "nested-empty":
+		f.ops = []op{matOp("cm", namedMat{"in", [6]string{"1", "0", "0", "1", "7", "7"}}), doOp("Fm1"), opBT, opsTd[0], opTj, opET}
+		g := &form{name: "Fm1", hasMatrix: true, indirect: !xind, rawSet: true, raw: []byte("%\n")}
+		m := matOp("cm", namedMat{"g", [6]string{"0", "1", "-1", "0", "3", "4"}})
+		g.matrix, g.ml = m.m, m.ml
+		defer p.addForm(g)
 	}
 	p.addForm(f)
 	p.ops = append(p.ops, opsTf[0], opsTL[0])
 	p.ops = append(p.ops, outer...)
-	if wrap {
-		p.ops = append(p.ops, opq, doOp("Fm0"), opQ)
-	} else {
+	switch wrap {
+	case "bare":
 		p.ops = append(p.ops, doOp("Fm0"))
+	case "q":
+		p.ops = append(p.ops, opq, doOp("Fm0"), opQ)
+	case "qcm":
+		p.ops = append(p.ops, opq, opsCm[2], doOp("Fm0"), opQ)
+	case "qq":
+		p.ops = append(p.ops, opq, opsCm[2], opsTL[1], opq, opsCm[3], doOp("Fm0"), opQ, opBT, opTstar, opTj, opET, opQ)
+	case "seq12":
+		for i := 0; i < 12; i++ {
+			p.ops = append(p.ops, doOp("Fm0"))
+		}
+		t := &form{name: "FmT", hasMatrix: true}
+		m := matOp("cm", cmMats[1])
+		t.matrix, t.ml = m.m, m.ml
+		t.ops = []op{opBT, numOp("Td", "t", "5", "6"), opTj, opET}
+		defer p.addForm(t)
+		p.ops = append(p.ops, doOp("FmT"))
 	}
 	p.ops = append(p.ops, opBT)
 	if post == "td" {
